@@ -87,7 +87,8 @@ Clauses of the statement and the properties that state them
   refused when assigned / read, previous value in place        RefusalKeepsEverything, ReadRefusalKeepsPrevious,
                                                                  StoredValuesAreCanonical
   renamed settings accepted under old names                    RenameLands (also for the setting that arrives by Register after
-                                                                 files have been read), UnknownNamesAreReportedAndIgnored,
+                                                                 files have been read), CurrentNameWins (a current name that
+                                                                 is also someone's old name), UnknownNamesAreReportedAndIgnored,
                                                                  LateSettingOnlyWhereItExists
   modified copies do not affect the original                   OthersUntouched, CopiesStartEqual, AdHocStaysWithTheCopy,
                                                                  observation `shared`; all input forms of modified():
@@ -106,7 +107,11 @@ CONSTANTS MaxObj,          \* number of Settings objects a behaviour may create
 
 Order   == <<"P", "N">> \o Generic \o <<"V", "Z">>    \* the writer's order (sorted by lower-cased name)
 Names   == {Order[i] : i \in 1..Len(Order)}
-OldOf   == [n \in {"Po", "No"} |-> IF n = "Po" THEN "P" ELSE "N"]           \* active renames
+\* active renames.  "Q" is in the table too: the ordinary setting Q bears a name that P used to have (a plugin re-using a
+\* retired name).  SettingRenamer.renameSetting: "If the name corresponds to a current setting name, do not attempt to rename
+\* it" -- the current-name rule comes first, so a file entry Q is Q's and never lands on P (Target, CurrentNameWins).
+OldOf   == [n \in {"Po", "No", "Q"} |-> IF n = "No" THEN "N" ELSE "P"]
+OldOnly == DOMAIN OldOf \ Names          \* the names that are nothing but old names
 Unknown == {"Zz"}
 AdHoc   == "Xk"                            \* the ad-hoc setting Settings.modified creates for a name that is no setting
 FileNames == Names \cup DOMAIN OldOf \cup Unknown \cup {AdHoc}
@@ -175,7 +180,7 @@ AssignBad(o, s) ==                       \* refused: the previous value stays
     /\ err' = "Invalid" /\ UNCHANGED <<objs, val, file, inv, extra, reg, late>> /\ Did([n |-> "AssignBad", o |-> o, s |-> s, r |-> "x"])
 
 AssignUnknown(o, nm) ==                  \* neither unknown nor old names are settings of the object
-    /\ "assign" \in Ops /\ nm \in DOMAIN OldOf \cup Unknown \cup (IF Has(o, "N") THEN {} ELSE {"N"})
+    /\ "assign" \in Ops /\ nm \in OldOnly \cup Unknown \cup (IF Has(o, "N") THEN {} ELSE {"N"})
     /\ err' = "Nonexistent" /\ UNCHANGED <<objs, val, file, inv, extra, reg, late>> /\ Did([n |-> "AssignUnknown", o |-> o, nm |-> nm])
 
 Revert(o) ==
@@ -217,7 +222,7 @@ SetBad(i) ==                             \* replace a value by one the setting r
     /\ err' = "" /\ UNCHANGED <<objs, val, inv, extra, reg, late>> /\ Did([n |-> "SetBad", i |-> i])
 SetOld(i) ==                             \* use the old name of a renamed setting
     /\ "tamper" \in Ops /\ i \in 1..Len(file.es)
-    /\ \E old \in DOMAIN OldOf : /\ OldOf[old] = file.es[i].n /\ old \notin EntryNames(file)
+    /\ \E old \in OldOnly : /\ OldOf[old] = file.es[i].n /\ old \notin EntryNames(file)
                                  /\ file' = [file EXCEPT !.es[i].n = old, !.clean = FALSE]
     /\ err' = "" /\ UNCHANGED <<objs, val, inv, extra, reg, late>> /\ Did([n |-> "SetOld", i |-> i])
 AddUnknown ==                            \* add a name no setting has
@@ -364,9 +369,15 @@ StoredValuesAreCanonical == \A o \in objs : \A s \in Names : val[o][s] \in Toks(
 \* -- renames, unknown names
 LastEntryFor(s, i) == \A j \in (i + 1)..Len(file.es) : Target(file.es[j].n) # s
 RenameLands ==                           \* an entry under an active old name lands on the current name and is not "invalid"
-    ReadOk => \A i \in 1..Len(file.es) : file.es[i].n \in DOMAIN OldOf /\ Has(A.o, OldOf[file.es[i].n]) =>
+    ReadOk => \A i \in 1..Len(file.es) : file.es[i].n \in OldOnly /\ Has(A.o, OldOf[file.es[i].n]) =>
                  /\ file.es[i].n \notin inv
                  /\ LastEntryFor(OldOf[file.es[i].n], i) => val[A.o][OldOf[file.es[i].n]] = Canon(file.es[i].t)
+CurrentNameWins ==                       \* an entry under a current name that is also another setting's old name is that setting's own
+    ReadOk => \A i \in 1..Len(file.es) : file.es[i].n \in Names \cap DOMAIN OldOf /\ Has(A.o, file.es[i].n) =>
+                 /\ file.es[i].n \notin inv
+                 /\ LastEntryFor(file.es[i].n, i) => val[A.o][file.es[i].n] = Canon(file.es[i].t)
+                 /\ (\A j \in 1..Len(file.es) : TargetIn(file.es[j].n, A.o) # OldOf[file.es[i].n])
+                        => val[A.o][OldOf[file.es[i].n]] = Pre[A.o][OldOf[file.es[i].n]]
 UnknownNamesAreReportedAndIgnored ==
     ReadOk => inv = (EntryNames(file) \cap Unknown) \cup (IF AdHoc \in EntryNames(file) /\ A.o \notin extra THEN {AdHoc} ELSE {})
                     \cup {nm \in EntryNames(file) : Target(nm) = "N" /\ ~Has(A.o, "N")}
